@@ -7,6 +7,7 @@
 package verifapi
 
 import (
+	"io"
 	"math/big"
 	"time"
 )
@@ -74,3 +75,8 @@ func LocksHeld() int
 // hostport rest) so that url.Parse of a string with symbolic bytes can return
 // the pieces (see engine/urlmodel.go). No-op for concrete strings and in replay.
 func URLParts(uri, scheme, user string, hasUser bool, hostport, rest string)
+
+// NewStream returns a loop-back byte stream for codec harnesses: what is
+// written can be read back in chunks of arbitrary size (every cut position is
+// explored).
+func NewStream() io.ReadWriteCloser
